@@ -96,19 +96,24 @@ Proof. exact introspect_refs_resolve. Qed.
 
 (** ** stage 1: printed defaults *)
 
-(** marshalValue prints a conforming default of a scalar, enum or list type (nulls included) as a
-    GraphQL literal whose input coercion at that type gives the configured value back.  Strings:
-    every code point up to U+FFFF other than surrogates, with all of encoding/json's escaping (the
-    hard lemma, [string_body_roundtrip]).  Floats: integral values (float formatting is not
-    modelled).
+(** marshalValue prints a conforming default — of a scalar, enum, list or input object type, nested
+    to any depth, nulls included, the fields of an input object in whatever order Go's map
+    iteration delivers them — as a GraphQL literal whose input coercion at that type gives the
+    configured value back.  Strings: every code point up to U+FFFF other than surrogates, with all
+    of encoding/json's escaping (the hard lemma, [string_body_roundtrip]).  Input objects: a
+    conforming value ([default_conforms]: what input coercion produces) has an entry for every
+    field that has a default, so reading the literal back adds nothing.  [enums_ok], [inputs_ok]:
+    enum value names and input field names are GraphQL names (shallowValidate).
 
-    FULL STATEMENT, proved only in part:
-      forall S v t, enums_ok S -> default_conforms S v t = true -> (strings of v within U+0000..U+FFFF
-      without surrogates) -> exists txt, marshal S v t = MOk txt /\ literal_denotes S t txt v = true.
-    Missing: values that contain an input object ([GMap]; [printable] excludes them) and
-    non-integral floats.  For those the clause is evaluated by the oracle on every generated
-    default ([literal_denotes] in Intro/IntrospectCheck.v) and end to end with the real parser. *)
-Theorem C10_default_roundtrip_partial : forall (S : schema), enums_ok S -> forall v t,
+    FULL STATEMENT, proved except for one kind of leaf:
+      forall S v t, enums_ok S -> inputs_ok S -> default_conforms S v t = true -> (strings of v within
+      U+0000..U+FFFF without surrogates) -> exists txt, marshal S v t = MOk txt /\ literal_denotes S t txt v = true.
+    Missing: Float values that are not integral ([printable] demands that the text Go printed is
+    the decimal of an integer: strconv's shortest-round-trip formatting is not modelled).  For
+    those the clause is evaluated by the oracle on every generated default — the text Go printed
+    must parse as a Float literal whose exact rational value rounds to the configured float64
+    ([rounds_to]) — and end to end with the real parser. *)
+Theorem C10_default_roundtrip_partial : forall (S : schema), enums_ok S -> inputs_ok S -> forall v t,
   default_conforms S v t = true -> printable v ->
   exists txt, marshal S v t = MOk txt /\ literal_denotes S t txt v = true.
 Proof. exact default_roundtrip_values. Qed.
